@@ -367,12 +367,35 @@ def run(chk):
 
 
 # ------------------------------------------------------------------------------------------- reference semantics
+def reference_pairs_merge(stmt):
+    """MERGE whose source is a base table and whose only clauses are WHEN NOT MATCHED THEN INSERT (cols) VALUES (vals) with plain
+    `q.c` values, q the source's name: each clause pairs ITS i-th value with ITS i-th column.  None for everything else (update
+    clauses and expression values are the recorded finding D31's territory)."""
+    _, tgt, alias, src, on, ups, inss = stmt
+    if ups or not inss or src[0] != "table":
+        return None
+    sname = (".".join(src[1][:-1]) if len(src[1]) > 1 else "<default>") + "." + src[1][-1]
+    q = src[2] or src[1][-1]
+    tname = (".".join(tgt[:-1]) if len(tgt) > 1 else "<default>") + "." + tgt[-1]
+    out = set()
+    for cols, vals in inss:
+        if len(cols) != len(vals):
+            return None
+        for c, v in zip(cols, vals):
+            if not (isinstance(v, list) and len(v) == 3 and v[0] == "col" and v[1] == [q]):
+                return None
+            out.add((f"{sname}.{v[2]}", f"{tname}.{c[-1]}"))
+    return sorted(out)
+
+
 def reference_pairs(stmt):
     """(source, target) pairs by the property's text for the sub-grammar: INSERT/CTAS/VIEW whose query is one SELECT block over
     base tables, or a set operation of such blocks (position by position), with or without an explicit column list.  Returns
     None when the shape is not covered (derived tables, CTEs, stars, subqueries, un-aliased expression items, the recorded
     deviation classes D6/D7)."""
     try:
+        if stmt[0] == "merge":
+            return reference_pairs_merge(stmt)
         if stmt[0] == "insert":
             tgt, cols, q = stmt[3], stmt[4], stmt[5]
         elif stmt[0] == "ctas":
